@@ -9,6 +9,8 @@ A case is self-contained JSON:
   mode    : "transform" | "canonical" | "cli"
   params  : ImportFormatParams kwargs
   forget  : [OLD, ...] (mode canonical only) entries removed by __forget_imports__
+  prior_calls : [{text, map, mode}, ...] calls made in the same process *before* the observed call
+                (their results are discarded; a replay executes them first, so it is self-contained)
   odomain : bool — whether the direct oracle applies (False: correspondence-only case)
 
 Everything random comes from the `rng` passed in.
@@ -31,13 +33,35 @@ import sys
 import tokenize
 import types
 
-TOPS = ["qfoo", "qfoobar", "qfo", "qfoo_", "qa", "qab", "qpkg", "qpkg2", "qm", "qmod"]
-SUBS = ["b", "bc", "bcd", "sub", "subx", "su", "mod", "mod_", "c", "cc", "b2"]
-MEMBERS = ["f", "fn", "g", "val", "value", "Cls", "K", "k2", "fx"]
-NEWTOPS = ["znew", "zn", "znew2", "zy", "zpk"]
-NEWSUBS = ["y", "yy", "n", "nw", "w", "y_"]
-ALIASES = ["al", "alx", "loc", "lo", "h", "hh", "r1", "a"]
+import unicodedata
+
+# Name pools.  About a third of every pool are non-ASCII Python identifiers (PEP 3131): Latin-1 / Latin
+# Extended-A letters, Greek, CJK - all NFKC-stable (the parser NFKC-normalises identifiers) and made of `\w`
+# characters only (identifier characters outside `\w` are known finding C18-D5), inside the alphabet on which
+# the Lean `isW` is exact.  The non-ASCII names come with their own character-prefix traps
+# (donnée/données, 模/模块, αβ/αβγ).
+TOPS = ["qfoo", "qfoobar", "qfo", "qfoo_", "qa", "qab", "qpkg", "qpkg2", "qm", "qmod",
+        "données", "donnée", "Größe", "模块", "模", "αβγ", "αβ", "qé"]
+SUBS = ["b", "bc", "bcd", "sub", "subx", "su", "mod", "mod_", "c", "cc", "b2",
+        "lecture", "é", "sué", "子", "子包", "β"]
+MEMBERS = ["f", "fn", "g", "val", "value", "Cls", "K", "k2", "fx",
+           "lire", "größe", "值", "π"]
+NEWTOPS = ["znew", "zn", "znew2", "zy", "zpk", "znéw", "新", "ζ"]
+NEWSUBS = ["y", "yy", "n", "nw", "w", "y_", "ñ", "yé", "新子"]
+ALIASES = ["al", "alx", "loc", "lo", "h", "hh", "r1", "a", "alé", "别名", "λ"]
 VARS = ["v", "res", "tmp", "item"]
+
+
+def in_alphabet(s: str) -> bool:
+    """the alphabet on which the Lean model's `\\w` is exact (Pfb.C18.inAlphabet)"""
+    return all(ord(c) < 0x180 or 0x370 <= ord(c) <= 0x3FF or 0x4E00 <= ord(c) <= 0x9FFF for c in s)
+
+
+for _pool in (TOPS, SUBS, MEMBERS, NEWTOPS, NEWSUBS, ALIASES):
+    for _n in _pool:
+        assert _n.isidentifier() and unicodedata.normalize("NFKC", _n) == _n and re.fullmatch(r"\w+", _n) \
+            and in_alphabet(_n), _n
+assert not (set(NEWTOPS) | set(NEWSUBS)) & (set(TOPS) | set(SUBS) | set(MEMBERS) | set(ALIASES))
 
 PARAM_CHOICES = dict(
     align_imports=[True, False, 24],
@@ -89,7 +113,8 @@ def map_in_odomain(entries) -> bool:
 
 def _dotted_ident(s):
     import keyword
-    return bool(s) and all(p.isidentifier() and not keyword.iskeyword(p) and p.isascii() for p in s.split("."))
+    return bool(s) and all(p.isidentifier() and not keyword.iskeyword(p) and re.fullmatch(r"\w+", p)
+                           and unicodedata.normalize("NFKC", p) == p for p in s.split("."))
 
 
 # ----------------------------------------------------------------------------
@@ -711,7 +736,26 @@ def gen_params(rng):
     return p
 
 
+_ALL_POOLS = dict(TOPS=list(TOPS), SUBS=list(SUBS), MEMBERS=list(MEMBERS), NEWTOPS=list(NEWTOPS),
+                  NEWSUBS=list(NEWSUBS), ALIASES=list(ALIASES))
+
+
+def _set_pools(ascii_only):
+    g = globals()
+    for k, v in _ALL_POOLS.items():
+        g[k] = [x for x in v if x.isascii()] if ascii_only else list(v)
+
+
 def gen_odomain_case(rng, mode=None):
+    # 40% of the cases draw from the ASCII halves of the pools only
+    _set_pools(rng.random() < 0.4)
+    try:
+        return _gen_odomain_case(rng, mode)
+    finally:
+        _set_pools(False)
+
+
+def _gen_odomain_case(rng, mode=None):
     for _ in range(40):
         mods, add = gen_universe(rng)
         entries = gen_map(rng, mods, add)
@@ -727,8 +771,37 @@ def gen_odomain_case(rng, mode=None):
                 if case["mode"] == "canonical" and len(entries) > 1 and rng.random() < 0.15:
                     # one entry is forgotten by the database
                     case["forget"] = [rng.choice(entries)[0]]
+                if case["mode"] != "cli" and rng.random() < 0.15:
+                    case["prior_calls"] = gen_prior_calls(rng, mods, entries, text, case["mode"])
                 return case
     raise RuntimeError("gen_c18: could not build an in-domain case")
+
+
+def gen_prior_calls(rng, mods, entries, text, mode):
+    """Earlier calls made in the same process before the observed one (each call must be self-consistent,
+    whatever was renamed before): same OLD keys with a different NEW, same map on another text, another order."""
+    calls = []
+    for _ in range(rng.choice([1, 1, 2, 3])):
+        r = rng.random()
+        route = mode if rng.random() < 0.6 else rng.choice(["transform", "canonical"])
+        if r < 0.55:
+            # same OLD keys (same order), different NEW, same program
+            taken = [n for _, n in entries] + [o for o, _ in entries]
+            m2 = []
+            for o, n in entries:
+                n2 = fresh_new(rng, mods, taken)
+                taken.append(n2)
+                m2.append([o, n2])
+            calls.append(dict(text=text, map=m2, mode=route))
+        elif r < 0.8:
+            # same map, another program over the same universe
+            calls.append(dict(text=gen_program(rng, mods, entries), map=[list(e) for e in entries], mode=route))
+        elif r < 0.9 and len(entries) > 1:
+            calls.append(dict(text=text, map=[list(e) for e in reversed(entries)], mode=route))
+        else:
+            # the inverse rename of the same program's output shape: NEW -> OLD
+            calls.append(dict(text=text, map=[[n, o] for o, n in entries], mode=route))
+    return calls
 
 
 def gen_konly_case(rng):
@@ -743,6 +816,9 @@ def gen_konly_case(rng):
         return dict(map=[[k, v]], text="\n".join(lines) + "\n\nprint(%s, %s)\n" % (k, v), mods={},
                     params=gen_params(rng), mode="transform", odomain=False)
     names = ["a", "b", "c", "ab", "a_", "x", "a.b", "a.b.c", "a.bc", "b.a", "x.y", "x.a", "c.a.b", "a.a", "b.c"]
+    if rng.random() < 0.3:
+        # non-ASCII word characters next to ASCII ones (`éa` is one word for Python's `\w`)
+        names = names + ["é", "éa", "aé", "é.b", "a.é", "模", "模.a", "a模", "β.é"]
     n = rng.randint(1, 4)
     keys = rng.sample(names, n)
     entries = [[k, rng.choice(names)] for k in keys]
